@@ -17,3 +17,5 @@ open RV.C16
 #print axioms gen_yields_prefix
 #print axioms gen_yields_all_when_dry
 #print axioms interleaved_iterators_share_rows
+#print axioms json_text_roundtrip
+#print axioms json_py_text_roundtrip
